@@ -166,6 +166,11 @@ class Facts:
             o['_types'] = types
             k = o['k']
             if k == 'Function':
+                if o.get('body') is not None:
+                    # calls of local by-reference lambdas in statement position are analysed as the statements of the lambda body
+                    from . import inline as _I
+                    try: o['body'] = _I.desugar_lambdas(o['body'])
+                    except RecursionError: pass
                 self.functions.append(o)
                 self._by_id[(unit, o['id'])] = o
             elif k == 'Record': self.records.append(o)
